@@ -216,6 +216,7 @@ def dict_props_to_arr(
         # try casting the list of values to a numpy array
         try:
             values_arr = np.asarray(values)
+            values_arr = _exact_int_array(values, values_arr)
         # catch a value error which will happen if we have elements that are different shapes
         except ValueError:
             # try to construct variable length properties - will raise an error if internal
